@@ -112,6 +112,9 @@ def hyp_run(ctx, strategy, prop_fn, max_examples, batches=4, seed_salt=0):
 
 def _worker_main(modname, pid, tier, seed, worker, nworkers, budget, deadline, conn):
     try:
+        import faulthandler, signal; faulthandler.register(signal.SIGUSR1, all_threads=True)      # kill -USR1 <worker> prints where a stuck worker is
+    except Exception: pass
+    try:
         mod = importlib.import_module(modname)
         ctx = Ctx(pid, tier, seed, worker, nworkers, budget, deadline)
         try:
